@@ -104,3 +104,9 @@ Definition spec_field_names (c : N) : option (list bytes) :=
 
 (** the nine performatives (2.7): what [FrameBody] / [Performative] dispatches on *)
 Definition performative_codes : list N := [16; 17; 18; 19; 20; 21; 22; 23; 24].
+
+Definition code_in (l : list N) (s : schema) : bool := existsb (N.eqb (s_code s)) l.
+Definition performative_schemas : list schema := filter (code_in performative_codes) spec_schemas.
+(** delivery states (3.4 and 4.5.8 / 4.5.5): received, accepted, rejected, released, modified, declared, transactional-state *)
+Definition delivery_state_codes : list N := [35; 36; 37; 38; 39; 51; 52].
+Definition delivery_state_schemas : list schema := filter (code_in delivery_state_codes) spec_schemas.
